@@ -568,7 +568,7 @@ def execute(case, ctx):
         raise Skip(f'reference_unparse_failed:{type(exc).__name__}') from None
 
     pat, repl = pattern_and_template(scn)
-    kw = {'nested': nested, 'norm': True}  # C01 is stated for normalisation enabled: without it a one-operand Compare / BoolOp slice is left as a degenerate node
+    kw = {'nested': nested, 'norm': True, 'elif_': False}  # elif_=False: an If put as the sole statement of an else block is not folded into 'elif' (that would rewrite the untouched 'else:' line); C01 is stated for normalisation enabled: without it a one-operand Compare / BoolOp slice is left as a degenerate node
 
     if count:
         kw['count'] = count
